@@ -578,13 +578,16 @@ def compare(c, io, drv):
             out.append(("spec", "hash / == depend on the insertion order"))
         return out
     if e == "lagrange":
-        for part in ("func", "poly"):
-            iv, mv = io[part], m[part]
+        # two code shapes are accepted: the code as it stands (prod = reduce(mul, args)) and the repair proposed
+        # for D14 (reduce(mul, args, 1)); they are proved equal for >= 2 points (Props.C07.lagrange_fixed_eq)
+        def same(iv, mv):
             if isinstance(iv, dict) and "err" in iv or isinstance(mv, dict) and "err" in mv:
-                if iv != mv:
-                    out.append(("model", "lagrange.%s: impl=%s model=%s" % (part, json.dumps(iv)[:160], json.dumps(mv)[:160])))
-            elif _norm(iv) != _norm(mv):
-                out.append(("model", "lagrange.%s: impl=%s model=%s" % (part, json.dumps(iv)[:160], json.dumps(mv)[:160])))
+                return iv == mv
+            return _norm(iv) == _norm(mv)
+        mf = drv.get("model_fixed", m)
+        for part in ("func", "poly"):
+            if not (same(io[part], m[part]) or same(io[part], mf[part])):
+                out.append(("model", "lagrange.%s: impl=%s model=%s" % (part, json.dumps(io[part])[:160], json.dumps(m[part])[:160])))
         if s is not None:
             n = len(c["pairs"])
             want = _norm(s["at_nodes"])
